@@ -32,9 +32,9 @@ Proof. intros [S1 S2 S3 S4]. constructor; assumption. Qed.
 Lemma snap_ok_touch m s a : snap_ok e m s -> snap_ok e m (sp_touch s a).
 Proof. intros [S1 S2 S3 S4]. constructor; assumption. Qed.
 Lemma nums_set_cur m s c : nums m s -> nums m (sp_set_cur s c).
-Proof. intros [N1 N2 N3 N4 N5 N6]. constructor; assumption. Qed.
+Proof. intro Nu. apply (nums_transfer m m s); try reflexivity; try assumption. apply Nu. Qed.
 Lemma nums_touch m s a : nums m s -> nums m (sp_touch s a).
-Proof. intros [N1 N2 N3 N4 N5 N6]. constructor; assumption. Qed.
+Proof. intro Nu. apply (nums_transfer m m s); try reflexivity; try assumption. apply Nu. Qed.
 
 Lemma Sim_wrote_st m m' s a k b ext :
   Sim e m s -> wrote_st m m' a k b -> pushed e m m' ext ->
@@ -229,8 +229,8 @@ Proof.
   - apply (fl_matches_frame m); assumption.
   - apply (snap_ok_taint m _ s Sn); try assumption; [| reflexivity].
     rewrite Hc, Hc1, app_length. lia.
-  - destruct Nu as [N1 N2 N3 N4 N5 N6]. constructor; cbn [sp_pend sp_next sp_max sp_min sp_prev sp_set_snaps sp_set_cur];
-      try congruence. unfold min_rel in *. cbn [sp_max sp_min sp_set_snaps sp_set_cur]. congruence.
+  - apply (nums_transfer m _ s); try assumption; try reflexivity.
+    cbn [sp_next sp_set_snaps sp_set_cur]. rewrite <- (nu_next m s Nu). assumption.
 Qed.
 
 (** * Version, DbDump: no effect *)
@@ -262,7 +262,7 @@ Proof.
   - destruct Mf as [F1 F2]. split; [intros a k; rewrite cur_st_no_objs; apply F1 | intros a; rewrite cur_oacct_no_objs; apply F2].
   - apply (fl_matches_frame m); try reflexivity. exact Mf.
   - apply (snap_ok_taint m _ s Sn); try reflexivity; simpl; lia.
-  - destruct Nu as [N1 N2 N3 N4 N5 N6]. constructor; try assumption.
+  - apply (nums_transfer m _ s); try reflexivity; try assumption. apply Nu.
 Qed.
 
 Lemma step_clear m s : Sim e m s -> step_ok m s Clear.
@@ -291,9 +291,7 @@ Proof.
     + intros id len [].
     + constructor.
     + intros id len S0 H. discriminate.
-  - destruct Nu as [N1 N2 N3 N4 N5 N6]. constructor; cbn [s_next s_max s_db s_prev s_min set_revs sp_set_snaps sp_next sp_pend sp_max sp_prev];
-      try congruence; try reflexivity.
-    unfold min_rel in *. cbn [s_min set_revs sp_max sp_min sp_set_snaps]. rewrite F6. exact N5.
+  - apply (nums_transfer m _ s); try assumption; try reflexivity.
 Qed.
 
 (** * Snapshot / RevertToSnapshot *)
@@ -381,9 +379,8 @@ Proof.
         -- intros H1 H2. destruct (S4 id len S0 H1 H2) as [L M]. split.
            ++ apply (live_ok_frame m); try reflexivity. exact L.
            ++ eapply matches_view_eq; [| exact M]. apply revert_n_view_eq. exact V.
-    + subst m'. destruct Nu as [N1 N2 N3 N4 N5 N6].
-      constructor; cbn [s_next s_max s_db s_prev s_min set_revs sp_set_snaps sp_next sp_pend sp_max sp_prev]; try congruence.
-      exact N5.
+    + subst m'. apply (nums_transfer m _ s); try reflexivity; try assumption.
+      cbn [s_next set_revs sp_next sp_set_snaps]. rewrite Hnext. reflexivity.
   - cbn [sexp_match sx_match]. rewrite Hnext. apply N.eqb_refl.
 Qed.
 
@@ -455,9 +452,7 @@ Proof.
       * apply (live_ok_frame m1); try reflexivity. exact Lm1.
       * eapply matches_view_eq; [apply revert_n_view_eq; exact V|].
         unfold m1. rewrite <- revert_n_add, Hsum. exact M'.
-  - destruct Nu as [N1 N2 N3 N4 N5 N6]. subst m'.
-    constructor; cbn [s_next s_max s_db s_prev s_min set_revs sp_set_snaps sp_set_cur sp_next sp_pend sp_max sp_prev];
-      try congruence.
-    unfold min_rel in *. cbn [s_min set_revs sp_max sp_min sp_set_snaps sp_set_cur]. rewrite R5. exact N5.
+  - subst m'. apply (nums_transfer m _ s); try assumption; try reflexivity.
+    cbn [s_next set_revs sp_next sp_set_snaps sp_set_cur]. rewrite R2. apply Nu.
 Qed.
 End Steps.
